@@ -23,10 +23,12 @@ def known_class(fmt, ch, text, cat, script=None, line=None):
         return None
     # OKI/VOX ADPCM packs two samples per byte: a call with an odd item count transfers one sample too many, which
     # also shifts everything read or written afterwards by one sample
-    if fmt.codec == 0x21 and (script is None or _odd_count_before(script, line)):
+    # (exactly that class: the history must contain the odd call; the symptom must be one the extra sample explains -- the count of the call itself,
+    # the overrun of the caller's buffer (ASan abort), the data / position / end of file / frame count behind it; never a seek, an open, an invalid-call result)
+    if fmt.codec == 0x21 and script is not None and _odd_count_before(script, line) and cat in ("count", "short", "data", "position", "eof", "frames", "crash"):
         return "KF-VOX-ODD"
     # RAW/DWVW has no header: the frame count is an estimate from the file length
-    if fmt.major == 0x04 and fmt.codec in (0x40, 0x41, 0x42) and cat in ("short", "eof", "data", "count", "position", "frames"):
+    if fmt.major == 0x04 and fmt.codec in (0x40, 0x41, 0x42) and cat in ("eof", "frames"):
         return "KF-RAW-DWVW-FRAMES"
     return None
 
